@@ -139,7 +139,9 @@ def main(argv=None):
         print(f"CHECKER-FAULT property={prop}: zero obligations generated")
         write_evidence(prop, tier, seed, plan, reg, eng, [], {}, undecided, functions, lemmas, t0, 0, [], extra_cov, fault=True)
         return 3
-    res = solve_all(obs, jobs=a.jobs, timeout_s=timeout, seed=seed) if obs else {}
+    # solver seeds are fixed by the portfolio (verdicts must not depend on VERIF_SEED); VERIF_SEED drives the
+    # generated inputs of the witness search and of the run-time checked contracts
+    res = solve_all(obs, jobs=a.jobs, timeout_s=timeout, seed=0) if obs else {}
     failed = [o for o in obs if res[o.id].status == 'failed']
     unknown = [o for o in obs if res[o.id].status in ('unknown', 'error') and o.expect == 'valid']
     guard_unknown = [o for o in obs if res[o.id].status in ('unknown', 'error') and o.expect != 'valid']
@@ -296,9 +298,12 @@ def write_evidence(prop, tier, seed, plan, reg, eng, obs, res, undecided, functi
     kinds = {}
     for o in obs:
         kinds[o.kind] = kinds.get(o.kind, 0) + 1
+    trivial = sum(eng.functions.get(t, {}).get('trivial', 0) for t in functions)
+    if trivial:
+        by_backend['simplified-to-true-during-generation'] = trivial
     cov = {
-        'obligations': len(real),
-        'discharged': len(discharged_real),
+        'obligations': len(real) + trivial,
+        'discharged': len(discharged_real) + trivial,
         'checker_cmd': f"python3-vt -m pyvc.run {prop} --tier {tier}",
         'trusted_base': plan.get('trusted_base', []) + trusted_of(reg, eng),
         'vacuity_guards': {'total': len(guards), 'passed': sum(1 for o in guards if res.get(o.id) and res[o.id].status == 'proved')},
